@@ -47,6 +47,35 @@ Proof.
     intros [= <-]. apply get_or_empty_inl in E. now rewrite (IH vs eq_refl), E.
 Qed.
 
+(* ---- a failed read never yields a transaction *)
+Definition not_txn (r : res) : Prop := match r with Txn _ => False | _ => True end.
+Lemma get_inr row i r : get row i = inr r -> not_txn r.
+Proof. unfold get. destruct (nth_error row i) as [[x|]|]; intros [= <-]; exact I. Qed.
+Lemma get_or_empty_inr row i r : get_or_empty row i = inr r -> not_txn r.
+Proof. unfold get_or_empty. destruct (nth_error row i) as [[x|]|]; intros [= <-]; exact I. Qed.
+Lemma captures_inr row l r : captures row l = inr r -> not_txn r.
+Proof.
+  induction l as [|[n c] rest IH]; cbn; [discriminate|].
+  destruct (get_or_empty row c) as [v|r'] eqn:E; cbn.
+  - destruct (captures row rest) as [vs|r'']; cbn; [discriminate|]. intros [= <-]. now apply IH.
+  - intros [= <-]. now apply get_or_empty_inr in E.
+Qed.
+Lemma fill_inr t cs r : fill t cs = inr r -> not_txn r.
+Proof.
+  induction t as [|[s|n] rest IH]; cbn; [discriminate| |].
+  - destruct (fill rest cs) as [x|r']; cbn; [discriminate|]. intros [= <-]. now apply IH.
+  - destruct (assoc n cs); [|intros [= <-]; exact I].
+    destruct (fill rest cs) as [x|r']; cbn; [discriminate|]. intros [= <-]. now apply IH.
+Qed.
+Lemma desc_and_caps_inr sp row r : desc_and_caps sp row = inr r -> not_txn r.
+Proof.
+  unfold desc_and_caps. destruct (desc sp) as [c ex|caps t].
+  - destruct (get row c) as [d|r'] eqn:E; cbn; [|intros [= <-]; now apply get_inr in E].
+    destruct (captures row ex) as [x|r'] eqn:E2; cbn; [discriminate|]. intros [= <-]. now apply captures_inr in E2.
+  - destruct (captures row caps) as [x|r'] eqn:E2; cbn; [|intros [= <-]; now apply captures_inr in E2].
+    destruct (fill t x) as [d|r'] eqn:E3; cbn; [discriminate|]. intros [= <-]. now apply fill_inr in E3.
+Qed.
+
 (* ---- totality: a row whose cells are all present never crashes *)
 Lemma get_total row i : all_some row -> (i < length row)%nat -> get row i = inl (cell row i).
 Proof.
@@ -178,9 +207,9 @@ Section Rows.
   Proof.
     unfold Model.row_to_txn. destruct (Nat.leb_spec (length row) (max_col sp)) as [|Hlen]; cbv iota; [discriminate|].
     intros H. split; [exact Hlen|].
-    destruct (get row (date_col sp)) as [d0|] eqn:Ed; cbn in H; [|discriminate].
-    destruct (get row (amount_col sp)) as [a0|] eqn:Ea; cbn in H; [|discriminate].
-    destruct (desc_and_caps sp row) as [[de cs]|] eqn:Edc; cbn in H; [|discriminate].
+    destruct (get row (date_col sp)) as [d0|r0] eqn:Ed; cbn in H; [|apply get_inr in Ed; now subst r0].
+    destruct (get row (amount_col sp)) as [a0|r0] eqn:Ea; cbn in H; [|apply get_inr in Ea; now subst r0].
+    destruct (desc_and_caps sp row) as [[de cs]|r0] eqn:Edc; cbn in H; [|apply desc_and_caps_inr in Edc; now subst r0].
     apply get_inl in Ed as [-> _]. apply get_inl in Ea as [-> _].
     apply desc_and_caps_inl in Edc as [Hde ->].
     exists de. split; [exact Hde|]. unfold row_pure.
@@ -191,7 +220,7 @@ Section Rows.
     destruct (fl_is_zero _); [discriminate|].
     unfold location_of in H. unfold loc_text.
     destruct (loc_col sp) as [c|] eqn:El.
-    - destruct (get row c) as [lc|] eqn:Eg; cbn in H; [|discriminate]. apply get_inl in Eg as [-> _]. exact H.
+    - destruct (get row c) as [lc|r0] eqn:Eg; cbn in H; [|apply get_inr in Eg; now subst r0]. apply get_inl in Eg as [-> _]. exact H.
     - cbn in H. exact H.
   Qed.
 
@@ -296,7 +325,8 @@ Section Rows.
       destruct (is_nil (strip (raw ln))); [destruct Hr|].
       destruct (groups ln) as [g|] eqn:Eg; [|destruct Hr]. destruct Hr as [<-|[]].
       destruct Hv as [Hv|Hv]; [now apply norm_row_all_some|].
-      rewrite norm_row_id; apply (Hv ln g); try assumption; destruct hdr; [now apply In_tl|assumption].
+      assert (Hin : In ln ls) by (destruct hdr; [now apply In_tl|assumption]).
+      cbn in Hv. rewrite norm_row_id; now apply (Hv ln g).
   Qed.
 
   Lemma rows_independent v sp inp :
@@ -384,7 +414,8 @@ Section Rows.
     intros Hwf Hs. unfold wellformed, enough_columns, description_present. split.
     - intros [t H]. apply row_to_txn_Txn in H as [Hlen [de [Hde Hp]]].
       assert (Hex : exists t, row_pure v sp row de = Txn t) by (now exists t).
-      apply pure_Txn_iff in Hex as [Hne [Hd Ha]]. repeat split; try assumption. now exists de.
+      apply pure_Txn_iff in Hex as [Hne [Hd Ha]].
+      split; [exact Hlen|]. split; [exact Hd|]. split; [now exists de|exact Ha].
     - intros [Hlen [Hd [[de [Hde Hne]] Ha]]].
       destruct (row_to_txn_total v sp row Hs Hwf Hlen) as [de' [Hde' ->]].
       rewrite Hde in Hde'. injection Hde' as <-. apply pure_Txn_iff. tauto.
